@@ -7,6 +7,7 @@ from .. import flow
 from ..fold import try_fold
 from ..util import stmts_with_env, calls_with_env, assignments_to, single_def, kwarg
 from .common import method, unconditional_in
+from . import shared
 
 MB = 'vermouth/processors/make_bonds.py'
 
@@ -236,4 +237,31 @@ def run(ck):
           key='MPT-name-bonds|non-edges')
     dup = [s for s, c, e in stmts_with_env(bn, lambda s: isinstance(s, ast.Raise)) if 'multiple atoms' in u(s)]
     ck.ob('MPT-name-bonds', mod.loc(bn), len(dup) == 1, 'duplicate atom names in a residue are an error (falls back to distance)', key='MPT-name-bonds|duplicates')
+    # the processor always re-partitions, whatever the modes
+    cls = mod.cls('MakeBonds')
+    rs = ck.need(method(cls, 'run_system'), 'MakeBonds.run_system vanished')
+    ck.analysed(mod, rs)
+    mcalls = calls_with_env(rs, lambda c: call_name(c) == 'make_bonds')
+    ok = len(mcalls) == 1
+    if ok:
+        names = {}
+        for k in flow.atoms_of(mcalls[0][2]):
+            if k[0] == 'truth' and k[1] == 'system.molecules':
+                names[k] = 'NONEMPTY'
+        ok = flow.equivalent(flow.rename(mcalls[0][2], names), flow.parse_formula('NONEMPTY'))[0] and len(names) == len(flow.atoms_of(mcalls[0][2]))
+        c = mcalls[0][0]
+        ok = ok and u(kwarg(c, 'allow_name')) == 'self.allow_name' and u(kwarg(c, 'allow_dist')) == 'self.allow_dist' and u(kwarg(c, 'fudge')) == 'self.fudge'
+        st = [x for x in rs.body if isinstance(x, ast.Assign) and u(x.targets[0]) == 'system.molecules']
+        ok = ok and len(st) == 1 and u(st[0].value) == u(mcalls[0][1].targets[0]) if isinstance(mcalls[0][1], ast.Assign) else False
+    ck.ob('PROV-modes', mod.loc(rs), ok, 'MakeBonds.run_system rebuilds the molecules from the residue partition for every non-empty system, in every combination of modes',
+          key='PROV-modes|always-partition')
+    shared.partition_graph_rule(ck)
+    gu = idx.mod('vermouth/graph_utils.py')
+    crf = gu.func('collect_residues')
+    ck.analysed(gu, crf)
+    lp = [n for n in crf.body if isinstance(n, ast.For)]
+    ok = len(lp) == 1 and u(lp[0].iter) == 'graph' and 'key = get_attrs(graph.nodes[node_idx], attrs=attrs)' in u(lp[0]) and 'residues[key].add(node_idx)' in u(lp[0]) \
+        and not any(isinstance(n, (ast.If, ast.Continue)) for n in ast.walk(lp[0]))
+    ck.ob('PROV-partition', gu.loc(crf), ok, 'collect_residues puts every node into the group of its own key, unconditionally (a partition of all atoms)', key='PROV-partition|collect_residues')
+    shared.truthy_zero(ck, [MB, 'vermouth/graph_utils.py'])
     ck.assume('KD-tree search completeness and near-threshold floating point are not decided; radii oracle = Bondi 1964 (embedded table)')
